@@ -204,7 +204,14 @@ class Traffic:
 
     def junk(self, src):
         r = self.rnd
-        k = r.choice(["unknown-pgn", "truncated", "out-of-range", "iso-type", "mixed-type", "empty-fast", "short-fast"])
+        k = r.choice(["unknown-pgn", "truncated", "out-of-range", "iso-type", "mixed-type", "empty-fast", "short-fast", "overlong-claim", "overlong-single"])
+        if k == "overlong-claim":
+            # more data bytes than a claim has: the NAME is still the first 64 bits
+            c = self.claim(src, r.choice(["garmin", "maretron", "airmar"]), unique=r.choice([11, 22, None]))
+            return c[:4] + (c[4] + bytes(r.getrandbits(8) for _ in range(r.choice([1, 2]))),)
+        if k == "overlong-single":
+            t = self.single(src)
+            return t[:4] + (t[4] + bytes([r.getrandbits(8)]),)
         if k == "unknown-pgn":
             return (r.choice([61000, 130999, 65000]), 6, src, 255, bytes(r.getrandbits(8) for _ in range(8)))
         if k == "truncated":
@@ -511,6 +518,34 @@ def monitor_isolation(ctx, n_hist=8, steps=40):
             solo.close(); fresh.close()
         for r in live:
             r.close()
+    return None, n
+
+
+def monitor_rejected(ctx, n_hist=20, steps=60):
+    """C16, metamorphic, with address claims and dumping: a history with its error-rejected inputs removed gives the same results
+    at every remaining position (configurations with a dump file and network mapping, claims of every kind incl. over-long ones)"""
+    harness.load_repo()
+    db = pgncorr.Db(ctx["repo"])
+    rnd = random.Random(ctx["seed"] + 65)
+    n = 0
+    for trial in range(n_hist):
+        cfg = rnd.choice([{"dump": True}, {"dump": True, "map": True}, {}, {"map": True, "exm": ["Garmin"]}, {"dump": True, "dumppgns": [127250, "isoAddressClaim"]}])
+        h = gen_history(rnd, db, steps, junk=0.3)
+        a = Real(cfg)
+        so = [a.feed(x)[0] for x in h]
+        a.close()
+        n += len(h)
+        keep = [i for i, o in enumerate(so) if o != "raised"]
+        if len(keep) == len(so):
+            continue
+        b = Real(cfg)
+        fo = [b.feed(h[i])[0] for i in keep]
+        b.close()
+        ref = [so[i] for i in keep]
+        if fo != ref:
+            k = next(i for i in range(len(fo)) if fo[i] != ref[i])
+            return {"kind": "rejected-input", "config": cfg, "history": ser_history(h[:keep[k] + 1]),
+                    "what": f"step {keep[k]}: the decoder returned {ref[k][:90]}; without the earlier inputs it had rejected with an error it returns {fo[k][:90]}"}, n
     return None, n
 
 
